@@ -1,4 +1,7 @@
 import SJ.Props.C05
+import SJ.Props.C09Readers
+import SJ.Props.C05Bytes
+import SJ.Props.C05BytesReaders
 #print axioms SJ.Props.C05.c05_escape_table
 #print axioms SJ.Props.C05.c05_escape_spec
 #print axioms SJ.Props.C05.c05_escape_buffers_utf8_cut
@@ -12,3 +15,17 @@ import SJ.Props.C05
 #print axioms SJ.Props.C05.c05_roundtrip
 #print axioms SJ.Props.C05.c05_roundtrip_written
 #print axioms SJ.Props.C05.c05_str_source_utf8
+#print axioms SJ.Props.C05.c05_borrowed
+#print axioms SJ.Props.C05.c05_borrowed_subslice
+#print axioms SJ.Props.C05.c05_bytes_target_total
+#print axioms SJ.Props.C05.c05_bytes_target
+#print axioms SJ.Props.C05.c05_bytes_target_only
+#print axioms SJ.Props.C05.c05_bytes_errors
+#print axioms SJ.Props.C05.c05_bytes_entry
+#print axioms SJ.Props.C05.c05_bytes_wtf8_form
+#print axioms SJ.Props.C05.c05_bytes_lone_surrogate
+#print axioms SJ.Props.C05.c05_bytes_raw_passthrough
+#print axioms SJ.Props.C05.c05_bytes_vs_str
+#print axioms SJ.Props.C05.c05_bytes_vs_str_spec
+#print axioms SJ.Props.C05.c05_bytes_control_passes
+#print axioms SJ.Props.C05.c05_bytes_target_readers
